@@ -8,7 +8,8 @@ LEVEL = 'model_checking'
 
 def plan(tier):
     units, info = wrgraph.wr_plan(tier)
-    units = units + wrgraph.scale_units(tier)[0] + wrgraph.thread_units()
+    units = units + wrgraph.scale_units(tier)[0] + wrgraph.thread_units() + \
+        wrgraph.small_text_units(tier)
     return {
         'units': units,
         'rule': '(a) from every canonical state of the closed writer+reader '
@@ -49,6 +50,9 @@ def oracle(ex):
 
 
 def run_unit(unit, tier):
+    if unit[0] == 'small-texts':
+        from mc.explore import Acc
+        return wrgraph.run_small_text_unit(unit, tier, oracle, Acc)
     if unit[0] == 'threads':
         from mc.explore import Acc
         return wrgraph.run_thread_unit(unit, tier, Acc)
@@ -70,5 +74,6 @@ def replay(payload):
     if payload.get('kind') != 'calls':
         return []
     ex = wrgraph.Exec(from_jsonable(payload['calls']), payload['root'])
-    return [{'key': k.replace(' ', '_').replace('\n', '\\n')[:200], 'msg': m}
-            for k, m in oracle(ex)]
+    suf = payload.get('suffix', '')
+    return [{'key': (k + suf).replace(' ', '_').replace('\n', '\\n')[:200],
+             'msg': str(m)[:800] if suf else m} for k, m in oracle(ex)]
